@@ -305,6 +305,34 @@ pub fn run_local_idle_pipe(idle_ms: u32, gap_ms: u32, n: u32, shutdown_fails: bo
     })
 }
 
+/// (c'') the application closes and the peer, silent from then on, never answers: the local time-out still ends
+/// the wait.  The peer's last frame arrives `last_ms` after the open, `close()` is called at `close_ms`.
+/// Returns how long after the peer's last frame `close()` returned (None = still waiting after 4 T) and with what.
+pub fn run_close_then_silence(idle_ms: u32, last_ms: u32, close_ms: u32) -> Result<(Option<u64>, String), String> {
+    let rt = paused_runtime();
+    rt.block_on(async move {
+        let (cio, pio) = tokio::io::duplex(1 << 18);
+        let mut peer = Peer::new(pio);
+        let client = tokio::spawn(async move { Connection::builder().container_id("c17c").idle_time_out(idle_ms).open_with_stream(cio).await });
+        let _open = peer.accept_open(&PeerOpen::default()).await.map_err(|e| format!("{:?}", e))?;
+        let mut conn = client.await.map_err(|e| format!("{:?}", e))?.map_err(|e| format!("open: {:?}", e))?;
+        let t0 = tokio::time::Instant::now();
+        tokio::time::sleep(Duration::from_millis(last_ms as u64)).await;
+        let _ = peer.send_empty().await;
+        let last = t0.elapsed().as_millis() as u64;
+        tokio::time::sleep(Duration::from_millis((close_ms - last_ms) as u64)).await;
+        let r = tokio::time::timeout(Duration::from_millis(idle_ms as u64 * 4 + 1000), conn.close()).await;
+        let at = t0.elapsed().as_millis() as u64;
+        // the peer reads what was written but says nothing
+        drop(peer);
+        Ok(match r {
+            Err(_) => (None, "still-waiting".to_string()),
+            Ok(Ok(())) => (Some(at.saturating_sub(last)), "ok".to_string()),
+            Ok(Err(e)) => (Some(at.saturating_sub(last)), format!("{:?}", e)),
+        })
+    })
+}
+
 /// (d) a reader that is late: a frame arrives `write_at_ms` after the transport was bound (before the
 /// idle deadline), nobody polls the transport until `poll_at_ms` (after the deadline), and then it is
 /// polled twice: right away, and again after another 3/4 of the time-out with one more frame written
@@ -559,6 +587,29 @@ pub fn main(opts: &Opts) {
                     }
                 }
                 Err(e) => report.finding(Finding { kind: "violation", key: "local-idle-scenario-failed".into(), description: e, replay }),
+            }
+        }
+    }
+    // (c'') close(), then a peer that never answers
+    for &idle in &[100u32, 1000] {
+        for (ln, cn) in [(3u32, 4u32), (1, 2), (5, 9)] {
+            let (last, close) = (idle * ln / 10, idle * cn / 10);
+            report.evaluations += 1;
+            report.count("close_then_silence");
+            report.nontrivial_case(fnv(&format!("cts{}/{}/{}", idle, last, close)));
+            let replay = json!({"property": prop, "module": "limits", "close_then_silence": {"idle_ms": idle, "last_frame_ms": last, "close_ms": close}});
+            match run_close_then_silence(idle, last, close) {
+                Ok((None, _)) => report.finding(Finding { kind: "violation", key: "idle-time-out-not-enforced:after-local-close".into(), description: format!("idle-time-out {} ms: the peer's last frame came at {} ms, close() was called at {} ms and never answered; close() is still waiting {} ms later", idle, last, close, idle as u64 * 4 + 1000), replay }),
+                Ok((Some(d), verdict)) => {
+                    if d > idle as u64 + 50 {
+                        report.finding(Finding { kind: "violation", key: "timed-out-late:after-local-close".into(), description: format!("idle-time-out {} ms: close() returned only {} ms after the peer's last frame ({})", idle, d, verdict), replay });
+                    } else if d + 1 < idle as u64 {
+                        report.finding(Finding { kind: "violation", key: "timed-out-early:after-local-close".into(), description: format!("idle-time-out {} ms: close() gave up {} ms after the peer's last frame ({})", idle, d, verdict), replay });
+                    } else if !verdict.contains("IdleTimeout") {
+                        report.finding(Finding { kind: "violation", key: "time-out-not-reported:after-local-close".into(), description: format!("idle-time-out {} ms fired while close() waited for the peer; close() reports {}", idle, verdict), replay });
+                    }
+                }
+                Err(e) => report.finding(Finding { kind: "violation", key: "close-then-silence-scenario-failed".into(), description: e, replay }),
             }
         }
     }
